@@ -456,6 +456,54 @@ const EXPIRES: &[&str] = &[
 /// the document with a backslash in one of its artifact paths or rule patterns (a member name under
 /// `materials` / `products`, a string of a rule array): `\` is an ordinary character of a path - a
 /// file `dist\out` is not the file `dist/out` - and has to survive as it is
+/// the document with one of its key ids (a `keyid` member, an entry of `pubkeys`, a name in the `keys` table)
+/// written with upper-case digits: another text - refused, or kept as written; never rewritten
+pub fn uppercase_keyid(doc: &Value, r: &mut Rng) -> Option<Value> {
+    fn is_id(s: &str) -> bool {
+        s.len() == 64 && s.bytes().all(|c| c.is_ascii_hexdigit()) && s.bytes().any(|c| c.is_ascii_lowercase())
+    }
+    fn go(v: &mut Value, key: &str, r: &mut Rng, done: &mut bool) {
+        match v {
+            Value::String(s) if (key == "keyid" || key == "pubkeys") && is_id(s) && !*done && r.chance(1, 2) => {
+                *s = s.to_uppercase();
+                *done = true;
+            }
+            Value::Object(m) => {
+                if key == "keys" && !*done && r.chance(1, 2) {
+                    if let Some(k) = m.keys().find(|k| is_id(k)).cloned() {
+                        let x = m.remove(&k).unwrap();
+                        m.insert(k.to_uppercase(), x);
+                        *done = true;
+                    }
+                }
+                // (the `keyid` member of a key description is redundant - the reader computes the id and writes the
+                // computed one: not a field it accepts)
+                let is_key = m.contains_key("keyval");
+                for (k, x) in m.iter_mut() {
+                    if is_key && k == "keyid" {
+                        continue;
+                    }
+                    go(x, k, r, done);
+                }
+            }
+            Value::Array(xs) => {
+                for x in xs.iter_mut() {
+                    go(x, key, r, done);
+                }
+            }
+            _ => {}
+        }
+    }
+    let mut d = doc.clone();
+    let mut done = false;
+    for _ in 0..4 {
+        if !done {
+            go(&mut d, "", r, &mut done);
+        }
+    }
+    if done { Some(d) } else { None }
+}
+
 pub fn backslash_path(doc: &Value, r: &mut Rng) -> Option<Value> {
     fn go(v: &mut Value, under_arts: bool, in_rules: bool, r: &mut Rng, done: &mut bool) {
         match v {
@@ -693,6 +741,52 @@ pub fn run_docs(sink: &mut Sink, r: &mut Rng, pool: &[KeyInfo], n: usize) {
             if let Some(b) = backslash_path(d, r) {
                 doc_case(sink, kind, &b, "backslash");
                 doc_text_case(sink, kind, &b, "backslash");
+            }
+            if let Some(b) = uppercase_keyid(d, r) {
+                doc_case(sink, kind, &b, "upper-case-keyid");
+                // directly: whatever is accepted is written back with the id as it was written
+                fn upper_ids(v: &Value, out: &mut Vec<String>) {
+                    let is = |s: &str| s.len() == 64 && s.bytes().all(|c| c.is_ascii_hexdigit()) && s.bytes().any(|c| c.is_ascii_uppercase());
+                    match v {
+                        Value::String(s) if is(s) => out.push(s.clone()),
+                        Value::Object(m) => {
+                            for (k, x) in m {
+                                if is(k) {
+                                    out.push(k.clone());
+                                }
+                                upper_ids(x, out);
+                            }
+                        }
+                        Value::Array(xs) => xs.iter().for_each(|x| upper_ids(x, out)),
+                        _ => {}
+                    }
+                }
+                let mut ids = vec![];
+                upper_ids(&b, &mut ids);
+                let b2 = b.clone();
+                let k2 = kind.to_string();
+                let written: Option<Value> = guarded(move || match k2.as_str() {
+                    "link" => serde_json::from_value::<LinkMetadata>(b2).ok().and_then(|x| serde_json::to_value(&x).ok()),
+                    "step" => serde_json::from_value::<Step>(b2).ok().and_then(|x| serde_json::to_value(&x).ok()),
+                    "insp" => serde_json::from_value::<Inspection>(b2).ok().and_then(|x| serde_json::to_value(&x).ok()),
+                    "sig" => serde_json::from_value::<Signature>(b2).ok().and_then(|x| serde_json::to_value(&x).ok()),
+                    "layout" => serde_json::from_value::<LayoutMetadata>(b2).ok().and_then(|x| serde_json::to_value(&x).ok()),
+                    "meta" => serde_json::from_value::<MetadataWrapper>(b2).ok().and_then(|x| serde_json::to_value(&x).ok()),
+                    _ => serde_json::from_value::<Metablock>(b2).ok().and_then(|x| serde_json::to_value(&x).ok()),
+                })
+                .ok()
+                .flatten();
+                if let Some(w) = written {
+                    let text = w.to_string();
+                    for id in &ids {
+                        // (a key table entry filed under an id that is not the key's own is dropped by the reader:
+                        // that is the table's rule, not a rewriting - the entry is gone, not re-spelled)
+                        let lower = id.to_lowercase();
+                        let respelled = text.matches(lower.as_str()).count() > b.to_string().matches(lower.as_str()).count();
+                        sink.oracle(!respelled, "a key id written with upper-case digits was accepted and written back in lower case (the reader altered a key id it accepted)", &format!("doc_dec {} {}", kind, proto(&b, &mut None)));
+                    }
+                    sink.stat("upper-case-keyid/accepted");
+                }
             }
             doc_text_case(sink, kind, d, "valid");
             write_text_case(sink, d);
